@@ -546,3 +546,18 @@ Theorem C05_popon_refines_608_inline_text : forall d off ws evs spans up eol,
                dom_c05 (mkProg d (ploads_of (wexpand ws))) = true.
 Proof. exact popon_refines_608_inline_text. Qed.
 Print Assumptions C05_popon_refines_608_inline_text.
+
+(* for builder sccw: a non-empty row of at most 32 basic characters without a blank at either end, addressed by the writer's
+   preamble code (indent-0 form, attribute 16 / 17) on rows 1-15, is a row of the domain, and its words are the preamble code
+   twice followed by the characters in pairs *)
+Theorem C05_writer_row_ok : forall row u line, 1 <= row <= 15 -> (u = 16 \/ u = 17) -> forallb is_basic line = true ->
+  line <> [] -> hd 0 line <> 32 -> last line 0 <> 32 -> (length line <= 32)%nat ->
+  row_ok (mkRow row 0 0 u (map Ch line)) = true.
+Proof. exact writer_row_ok. Qed.
+Print Assumptions C05_writer_row_ok.
+Theorem C05_writer_row_emit : forall row u line,
+  emit_row true (mkRow row 0 0 u (map Ch line)) = [pac_word row u; pac_word row u] ++ pack true (map TCh line) None.
+Proof. exact writer_row_emit. Qed.
+Print Assumptions C05_writer_row_emit.
+Example C05_writer_row_instance : row_ok (mkRow 15 0 0 16 (map Ch [72; 105; 32; 116; 104; 101; 114; 101])) = true.
+Proof. exact writer_row_instance. Qed.
